@@ -178,6 +178,48 @@ def flush_js(res, node, batch):
     del batch[:]
 
 
+METACHAR_NAMES = ['qty, total', 'x;y', 'n=1', 'a, b, c', 'p#q', 'select *', 'k ,', ',', 'as v', 'r (s, t)', 'u == w', '[l, m]']
+
+
+def leg_named_spellings(ns, res, rng, js):
+    """Interchangeable spellings of a column under names that hold RBQL metacharacters (commas, =, #, ;, keywords, brackets): aN and a["name"] / a['name']
+    denote the same column in every clause that takes a column - the select list, EXCEPT lists, UPDATE targets, JOIN keys, WHERE, ORDER BY."""
+    from ..model import qast
+    for n in range(120):
+        w = rng.randrange(2, 5)
+        names = ['id'] + rng.sample(METACHAR_NAMES, w - 1)
+        A = [['r%dc%d' % (r, c) for c in range(w)] for r in range(3)]
+        B = [[A[r][1], 'J%d' % r] for r in range(3)]
+        j = rng.randrange(1, w)
+        shapes = [('select * except %s', None), ('select * except a1, %s', None), ('select a1, %s where %s != "zz" order by %s desc', None), ('update %s = "U" where a1 != "r1c0"', None), ('update set %s = a1', None),
+                  ('select a1, b2 join b on %s == b1', B), ('select %s, count(*) group by %s', None)]
+        tmpl, Bt = shapes[n % len(shapes)]
+        if Bt is not None:
+            Bt = [[A[r][j], 'J%d' % r] for r in range(3)]
+        spellings = ['a%d' % (j + 1), 'a[%s]' % qast.lit(names[j], '"'), 'a[%s]' % qast.lit(names[j], "'")]
+        texts = [tmpl.replace('%s', sp) for sp in spellings]
+        obs = []
+        for t in texts:
+            out, warnings, hdr, err = [], [], [], None
+            try:
+                ns.rbql.query_table(t, [list(r) for r in A], out, warnings, None if Bt is None else [list(r) for r in Bt], list(names), None if Bt is None else ['bk', 'bv'], hdr)
+            except Exception as e:
+                err = util.error_class(e)
+            obs.append((out, err))
+            res.evaluations += 1
+            res.count('named_spelling_runs:py')
+        res.nontrivial('named-spellings', tmpl, repr(names), j)
+        if obs[0][1] is not None or any(ob != obs[0] for ob in obs[1:]):
+            res.violation('py:named-spelling-changes-result', '[py] spellings of one column (header %r) differ or fail: %r' % (names, list(zip(texts, obs))), {'leg': 'named-spellings', 'engine': 'py', 'names': names, 'texts': texts, 'A': A, 'B': Bt})
+        if js is not None:
+            outs = js.call({'op': 'query_batch', 'cases': [{'query': t, 'input': [list(r) for r in A], 'join': Bt, 'input_cols': list(names), 'join_cols': None if Bt is None else ['bk', 'bv']} for t in texts]})['results']
+            jobs = [(o['out'], common.js_error_class(o['error'])) for o in outs]
+            res.evaluations += len(texts)
+            res.count('named_spelling_runs:js', len(texts))
+            if jobs[0][1] is not None or any(ob != jobs[0] for ob in jobs[1:]):
+                res.violation('js:named-spelling-changes-result', '[js] spellings of one column (header %r) differ or fail: %r' % (names, list(zip(texts, jobs))), {'leg': 'named-spellings', 'engine': 'js', 'names': names, 'texts': texts, 'A': A, 'B': Bt})
+
+
 def run_shard(spec, res):
     ns = env.import_rbql()
     rng = random.Random(spec['seed'] * 2750159 + spec['i'])
@@ -187,6 +229,8 @@ def run_shard(spec, res):
         res.notes.append('js_leg: unavailable (no node)')
     js_batch = []
     try:
+        if spec['i'] == 0:
+            leg_named_spellings(ns, res, rng, js)
         _run_cases(ns, res, spec, rng, js, js_batch)
         if js is not None and js_batch:
             flush_js(res, js, js_batch)
@@ -260,7 +304,7 @@ def _run_cases(ns, res, spec, rng, js, js_batch):
 def summarize(tier, seed, m):
     return {
         'rule': 'structured queries from the C01 / C02 / C04 / C05 generators plus literal-heavy selects (1-13 literals, so that placeholder numbers reach two digits), with string literals drawn from every RBQL keyword and metacharacter (%d keyword texts, %d metacharacter texts, both quote styles, escaped quotes, backslashes, escaped and raw tabs) injected into select items, WHERE operands, UPDATE right-hand sides and ORDER BY keys; each rendered canonically and in %d random compositions of the spelling transformations; all spellings executed through rbql.query and compared with each other exactly and with the reference. distinct_nontrivial = distinct canonical (query, tables) with a non-empty result.' % (len(KEYWORDS), len(META), RESPELLINGS[tier]),
-        'required': ['canonical_runs', 'respelling_runs', 'literals_checked', 'queries_with_11_or_more_literals', 'js_respelling_runs'],
+        'required': ['named_spelling_runs:py', 'named_spelling_runs:js', 'canonical_runs', 'respelling_runs', 'literals_checked', 'queries_with_11_or_more_literals', 'js_respelling_runs'],
         'assumptions': ['literals containing the engine placeholder ___RBQL_STRING_LITERAL<n>___, triple-quoted literals, f-strings and WITH(...) anywhere but last are not generated (documented limits)'],
     }
 
